@@ -17,9 +17,7 @@ theorem guess_some_iff (P : Prims) (d x : Bytes) :
     guess P d = some x ↔
       20 < d.length ∧ ∃ i, i < 16 ∧ 20 ≤ d.length - i ∧ x = slice d 20 (d.length - i) ∧
         P.sha1 x = d.take 20 ∧ ∀ k, k < i → P.sha1 (slice d 20 (d.length - k)) ≠ d.take 20 := by
-  unfold guess
-  have ht : Facts.C11.guessTries = 16 := rfl
-  rw [ht]
+  rw [guess_def]
   by_cases hl : d.length ≤ sha1Size
   · simp only [hl, if_true]
     constructor
@@ -58,12 +56,14 @@ theorem decryptAnswer_ok_hash (P : Prims) (data key iv : Bytes) (isNil : Bool) (
   · cases h
   · split at h
     · cases h
-    · cases hg : guess P (Ige.dec (P.aesDec key) iv data) with
-      | none => simp [hg] at h
-      | some x =>
-        simp only [hg, Option.isNone_some, Bool.false_eq_true, if_false, Except.ok.injEq] at h
-        obtain ⟨_, i, hi1, _, hi3, hi4, _⟩ := (guess_some_iff P _ x).mp hg
-        exact ⟨x, h.symm, hi4, i, hi1, hi3⟩
+    · split at h
+      · cases h
+      · cases hg : guess P (Ige.dec (P.aesDec key) iv data) with
+        | none => simp [hg] at h
+        | some x =>
+          simp only [hg, Option.isNone_some, Bool.false_eq_true, if_false, Except.ok.injEq] at h
+          obtain ⟨_, i, hi1, _, hi3, hi4, _⟩ := (guess_some_iff P _ x).mp hg
+          exact ⟨x, h.symm, hi4, i, hi1, hi3⟩
 
 /-- It never reports success with nil (empty) data. -/
 theorem decryptAnswer_never_ok_empty_unauthenticated (P : Prims) (data key iv : Bytes) (isNil : Bool) :
@@ -73,17 +73,18 @@ theorem decryptAnswer_never_ok_empty_unauthenticated (P : Prims) (data key iv : 
   cases hx
 
 /-- Every hash mismatch is an error: if no tried padding length makes the SHA-1 match, the result is
-the error `guess` (for a 32-byte key and block-aligned input). -/
+the error `guess` (for an AES key of 16/24/32 bytes, a 32-byte IV and block-aligned input). -/
 theorem decryptAnswer_mismatch_is_error (P : Prims) (data key iv : Bytes) (isNil : Bool)
-    (hk : key.length = 32) (ha : data.length % 16 = 0)
+    (hk : aesKeyOk key = true) (hiv : iv.length = 32) (ha : data.length % 16 = 0)
     (hm : ∀ i, i < 16 → P.sha1 (slice (Ige.dec (P.aesDec key) iv data) 20
       ((Ige.dec (P.aesDec key) iv data).length - i)) ≠ (Ige.dec (P.aesDec key) iv data).take 20) :
     decryptAnswer P data key iv isNil = .error .guess := by
   unfold decryptAnswer decryptAnswerWith
   have hv : (Facts.C11.nilTestVar == Facts.C11.guessResultVar) = true := by decide
-  have hk' : ¬ key.length ≠ 32 := by simp [hk]
+  have hk' : (!aesKeyOk key) = false := by simp [hk]
   have ha' : ¬ data.length % 16 ≠ 0 := by simp [ha]
-  simp only [hv, if_true, hk', ha', if_false]
+  have hiv' : ¬ iv.length ≠ 32 := by simp [hiv]
+  simp only [hv, if_true, hk', Bool.false_eq_true, ha', hiv', if_false]
   cases hg : guess P (Ige.dec (P.aesDec key) iv data) with
   | none => simp
   | some x =>
@@ -120,6 +121,30 @@ theorem decrypt_encrypt_answer_exact (P : Prims) (hP : LawfulPrims P) (rnd answe
   rw [h1, h2, NoPaddingCollision k h3 (h2 ▸ h4)]
   simp
 
+/-- **Total outcome table.**  `DecryptExchangeAnswer` returns the `cipher` error exactly for key
+lengths other than 16/24/32, else the `align` error exactly for inputs that are not a multiple of 16
+bytes, else panics (contract of gotd/ige) exactly for IVs that are not 32 bytes, else decides by the
+padding search. -/
+theorem decryptAnswer_outcomes (P : Prims) (data key iv : Bytes) (isNil : Bool) :
+    (aesKeyOk key = false → decryptAnswer P data key iv isNil = .error .cipher) ∧
+    (aesKeyOk key = true → data.length % 16 ≠ 0 → decryptAnswer P data key iv isNil = .error .align) ∧
+    (aesKeyOk key = true → data.length % 16 = 0 → iv.length ≠ 32 →
+      decryptAnswer P data key iv isNil = .error .panicIV) ∧
+    (aesKeyOk key = true → data.length % 16 = 0 → iv.length = 32 →
+      decryptAnswer P data key iv isNil =
+        match guess P (Ige.dec (P.aesDec key) iv data) with
+        | some x => .ok (some x)
+        | none => .error .guess) := by
+  have hv : (Facts.C11.nilTestVar == Facts.C11.guessResultVar) = true := by decide
+  unfold decryptAnswer decryptAnswerWith
+  refine ⟨?_, ?_, ?_, ?_⟩
+  · intro h; simp [h]
+  · intro h1 h2; simp [h1, h2]
+  · intro h1 h2 h3; simp [h1, h2, h3]
+  · intro h1 h2 h3
+    simp only [h1, h2, h3, hv, if_true]
+    cases guess P (Ige.dec (P.aesDec key) iv data) <;> simp
+
 /-- The unrepaired code (nil test on the *input*): a non-nil block of `0x01` bytes under the zero
 key and IV was reported as success with nil data.  (Toy primitives; the implementation-level witness
 is replayed by the harness.) -/
@@ -137,8 +162,9 @@ theorem source_facts :
     Facts.C11.guessHashSlice = "dataWithHash[:sha1.Size]" ∧
     Facts.C11.guessDataSlice = "dataWithHash[sha1.Size : len(dataWithHash)-i]" ∧
     Facts.C11.guessHashOf = "sha1.Sum(data)" ∧ Facts.C11.guessCompare = "bytes.Equal(h[:], v)" ∧
-    Facts.C11.alignCond = "len(dataWithHash)%cipher.BlockSize() != 0" :=
-  ⟨rfl, rfl, rfl, rfl, rfl, rfl, rfl, rfl, rfl, rfl, rfl⟩
+    Facts.C11.alignCond = "len(dataWithHash)%cipher.BlockSize() != 0" ∧
+    Facts.C11.decryptOrderOK = true ∧ Facts.C11.encryptOrderOK = true ∧ Facts.C11.dataWithHashShape = true :=
+  ⟨rfl, rfl, rfl, rfl, rfl, rfl, rfl, rfl, rfl, rfl, rfl, rfl, rfl, rfl⟩
 
 /-- Non-vacuity: a genuine answer is accepted (toy primitives): success is reachable. -/
 example : decryptAnswer Prims.toy (Prims.toy.sha1 [1, 2, 3] ++ [1, 2, 3] ++ List.replicate 9 7)
